@@ -20,7 +20,7 @@ def generate(G):
     hist("result_then_interior", "MulAddShare", two, ["Back(1)", "Back(0)"], "quick", "the result, later an interior node of it")
     hist("replace_between", "MulAddShare", two, ["Back(1)", "Replace(0)", "Back(1)"], "quick", "replace_gradient() on one leaf between two passes")
     hist("clearmut_between", "MulAddShare", two, ["Back(1)", "ClearMut(1)", "Back(0)"], "quick", "*gradient_mut() = None between passes")
-    hist("drop_between", "Diamond", two, ["Back(2)", "DropNode(0)", "DropNode(1)", "Back(2)"], "quick",
+    hist("drop_between", "Diamond", two, ["Back(2)", "DropNode(0)", "DropNode(1)", "Back(2)"], "thorough",
          "interior handles dropped between two passes on the result")
     hist("shared_subgraph", "TwoRoots", two, ["Back(1)", "Back(2)"], "quick", "r1 = p + a then r2 = p * b sharing p = a*b")
     hist("shared_subgraph_rev", "TwoRoots", two, ["Back(2)", "Back(1)", "Back(0)"], "thorough", "r2, r1, then the shared interior p")
@@ -29,11 +29,12 @@ def generate(G):
     hist("clear_all_then_pass", "MulAddShare", two, ["Back(1)", "Replace(0)", "ClearMut(1)", "Back(1)"], "thorough",
          "a pass after everything was cleared behaves like a first pass")
     hist("bcast_twice", "Mul", [L([2]), L([2, 2])], ["Back(0)", "Back(0)"], "thorough", "broadcast operand, two passes", unwind=10)
-    hist("untracked_leaf", "MulAddShare", [L([2]), L([2], tracked=False)], ["Back(1)", "Back(0)", "Back(1)"], "quick",
+    hist("untracked_leaf", "MulAddShare", [L([2]), L([2], tracked=False)], ["Back(1)", "Back(0)"], "quick",
          "one leaf untracked")
     hist("start_tracking_twice", "MulAddShare", [G.leaf_st([2]), L([2])], ["Back(1)", "Back(1)"], "quick",
          "a leaf made trackable by start_tracking() (no keep flag), the same result twice")
     hist("start_tracking_two_results", "TwoRoots", [G.leaf_st([2]), G.leaf_st([2])], ["Back(1)", "Back(2)"], "thorough",
          "start_tracking() leaves shared by two results")
     hist("square_twice", "Square", [L([2])], ["Back(0)", "Back(0)"], "quick", "self-product differentiated twice")
-    hist("no_probe_public_api", "MulAddShare", two, ["Back(1)", "Back(0)", "Back(1)"], "quick", "public API only (no hook probes)", probe=False)
+    hist("no_probe_public_api", "MulAddShare", two, ["Back(1)", "Back(0)"], "quick", "public API only (no hook probes)", probe=False)
+    hist("drop_between_small", "MulAddShare", two, ["Back(1)", "DropNode(0)", "Back(1)"], "quick", "an interior handle dropped between two passes")
